@@ -14,7 +14,7 @@ RULE = ("reference arithmetic: rows/columns 1..9 x all anchors x all absolute/re
         "ranges with both corners anywhere in the window (3 anchors quick / 5 thorough), full-row/full-column ranges and near misses, the last 6 rows/columns; "
         "argument validation (val): index -4..4, LAST-8..LAST+3 and extreme i32 values x counts on the real insert/delete; where cells go: 9x9 marker windows at every position incl. the end of the sheet; stored references: 162 planted formulas per (position, delta, same/other sheet, target sheet) read back from parsed_formulas; "
         "property oracle: generated two-sheet workbooks (literals of every type incl. quote-prefixed look-alikes, 17-digit numbers, URLs; relative/absolute/mixed/cross-sheet references, ranges, A:C and 2:5 ranges, "
-        "cell/row/column styles, links, multi-column descriptors) x insertion positions (row 1, inside, after the data, near the last line) x counts {1,2,7} through Model and UserModel. "
+        "cell/row/column styles, links, multi-column descriptors; in half of them non-square CSE array formulas 2x3/3x1/1x3 and a dynamic array beside the window) x insertion positions (row 1, inside, after the data, near the last line) x counts {1,2,7} through Model and UserModel. "
         "Non-trivial = distinct observations of the model-vs-implementation cases")
 
 def run(cfg):
